@@ -14,9 +14,9 @@
      typing), !, ==, if-then-else with singleton short-circuit typing and capability flow (branches boolean-rooted),
      `has` and `.` on access paths (variable followed by attribute selections) over records AND entities:
      required / optional attributes, optional ones behind capabilities, nested records, entity-typed attributes,
-     open / closed types, absent entities.
+     open / closed types, absent entities; integer arithmetic (+, -, *, unary -: value or overflow); like; is.
    Not in the fragment (see notes/C03.md): attribute access on non-path expressions, non-boolean `if` branches,
-   tags, in / is / like / contains*, arithmetic and comparisons, extension calls, set and record literals. *)
+   <, <=, tags, in, contains*, isEmpty, extension calls, set and record literals. *)
 From Cedar Require Import Typecheck ConformProofs ExprEq TypecheckProofs TypecheckProofs2 TypecheckProofs3.
 
 Theorem c03_sound_partial :
